@@ -505,6 +505,15 @@ func convNodes(in []*verifhook.Node) []*proto.Node {
 	return out
 }
 
+// processCPU: user + system time of this process so far, in microseconds.
+func processCPU() int64 {
+	var ru syscall.Rusage
+	if err := syscall.Getrusage(syscall.RUSAGE_SELF, &ru); err != nil {
+		return 0
+	}
+	return (ru.Utime.Sec+ru.Stime.Sec)*1e6 + int64(ru.Utime.Usec) + int64(ru.Stime.Usec)
+}
+
 func runJob(j *proto.Job) (res *proto.Result) {
 	res = &proto.Result{ID: j.ID, Dir: projDir}
 	defer func() {
@@ -537,7 +546,9 @@ func runJob(j *proto.Job) (res *proto.Result) {
 	if straceMarks {
 		_, _ = os.Stat("/__verif_mark_begin")
 	}
+	cpu0 := processCPU()
 	b := build(j, "build")
+	res.BuildCPU = processCPU() - cpu0
 	if straceMarks {
 		_, _ = os.Stat("/__verif_mark_end")
 	}
@@ -562,6 +573,7 @@ func runJob(j *proto.Job) (res *proto.Result) {
 	}
 	// hooks off for the serialisation part (they only matter for the build)
 	hs.wantFiles, hs.wantSteps, hs.wantPh = false, false, false
+	cpu0 = processCPU()
 	if b.accepted && j.ParallelOps {
 		res.Outputs = parallelOps(b, j)
 	} else if b.accepted {
@@ -569,6 +581,7 @@ func runJob(j *proto.Job) (res *proto.Result) {
 			res.Outputs = append(res.Outputs, b.call(op, j.HashOnly))
 		}
 	}
+	res.OpsCPU = processCPU() - cpu0
 	for _, lists := range j.OptSeq {
 		jj := *j
 		jj.SharedBan, jj.Banned = lists, nil
